@@ -256,6 +256,15 @@ def geo_worlds(tier: str, seed: int, *, convs=W.ALL_CONVS, big: bool = True) -> 
         lab = mesh_world(W.mesh_from_squares([["Q", "A"], ["B", "Q"]], shape="skew"), enc=dict(base=0, fill="intfill", coord_sep="  "), edges=True, centres=True)
         lab["dim_labels"] = True
         out.append(lab)
+    # grids whose ONLY cell with geometry is the very first one (linear index 0): single-cell grids, and a grid with every
+    # other cell missing
+    if "cf1d" in convs:
+        out.append(structured_world("cf1d", 1, 1, bounds=True))
+    if "cf2d" in convs:
+        out.append(structured_world("cf2d", 1, 1, shape="skew", bounds=True))
+        out.append(structured_world("cf2d", 2, 2, shape="rect", bounds=True, holes=[(0, 1), (1, 0), (1, 1)]))
+    if "shoc_standard" in convs:
+        out.append(structured_world("shoc_standard", 1, 1, shape="skew"))
     for w in out:
         # connectivity with an integer fill value next to the index range only exists undecoded, i.e. as built in memory
         if w["conv"] == "ugrid" and (w.get("enc") or {}).get("fillvalue") is not None:
